@@ -99,6 +99,8 @@ pub fn generate_cases(cfg: &Cfg) -> i32 {
     let n = cfg.get_u64("count", 20);
     let mut gc = GenCfg::core();
     gc.hostile_words = true;
+    gc.choice_tags = true;
+    gc.plain_choice_text = true;
     gc.externals = false;
     let mut made = 0;
     for i in 0..n {
